@@ -369,11 +369,15 @@ func runC09Attack(idx int, rng *rand.Rand) []Case {
 	cmd.Wait()
 	b, _ := os.ReadFile(out)
 	back, _ := decodeAll(vegeta.NewDecoder(bytes.NewReader(b)), 1<<20)
+	// results are written in completion order: every record must be a whole, genuine one (its own
+	// sequence number, the status and URL of this attack), none twice
 	clean := true
+	seen := map[uint64]bool{}
 	for i := range back {
-		if back[i].Seq != uint64(i) || back[i].Code != 200 {
+		if seen[back[i].Seq] || back[i].Code != 200 || back[i].URL != srv.URL+"/" || back[i].Method != "GET" {
 			clean = false
 		}
+		seen[back[i].Seq] = true
 	}
 	var c Case
 	w := &c.W
